@@ -104,8 +104,7 @@ theorem hashOp_spec (c : Case) (L : Layout) (n : Node) (insts : List Inst) (i : 
 
 /-- the facts about a layout the cache argument needs (proved for `layoutOf` of a chain below) -/
 structure LayoutOk (L : Layout) (n : Node) : Prop where
-  slotOfUniform : L.uniform = some true → n.facts.cacheOn = true → L.hasSlot = true
-  noSlotOfDict : L.uniform = some false → L.hasSlot = false
+  noSlotOfDict : L.copyMode = .dict → L.hasSlot = false
   reset : L.stateReset = L.initCache
 
 /-- every instance has a readable cache (matters only when the resolved hash caches) -/
@@ -113,23 +112,20 @@ def Readable (L : Layout) (n : Node) (insts : List Inst) : Prop :=
   n.facts.cacheOn = true → ∀ x ∈ insts, readCell L x ≠ .absent
 
 theorem copyInst_readable (L : Layout) (n : Node) (deep : Bool) (x : Inst) (hg : L.hres = .gen n)
-    (hc : n.facts.cacheOn = true) (h1 : k1 L = false) (hok : LayoutOk L n) (hu : L.uniform.isSome = true)
+    (hc : n.facts.cacheOn = true) (h1 : k1 L = false) (hok : LayoutOk L n)
+    (hu : (L.copyMode != .unsupported) = true)
     (hx : readCell L x ≠ .absent) : readCell L (copyInst L deep x) ≠ .absent := by
   simp only [k1, hg, hc, Bool.true_and, Bool.not_eq_false'] at h1
   unfold copyInst
-  cases hun : L.uniform with
-  | none => simp [hun] at hu
-  | some b =>
-    cases b with
-    | true =>
-      have hs := hok.slotOfUniform hun hc
-      simp [readCell, hs, hok.reset, h1]
-    | false =>
-      have hs := hok.noSlotOfDict hun
-      simp only [readCell, hs, Bool.false_eq_true, if_false] at hx ⊢
-      cases deep
-      · simpa using hx
-      · cases hd : x.dict <;> simp_all
+  cases hun : L.copyMode with
+  | unsupported => simp [hun] at hu
+  | state => simp [hok.reset, h1, readCell_writeCell]
+  | dict =>
+    have hs := hok.noSlotOfDict hun
+    simp only [readCell, hs, Bool.false_eq_true, if_false] at hx ⊢
+    cases deep
+    · simpa using hx
+    · cases hd : x.dict <;> simp_all
 
 def isCopyOp : Op → Bool
   | .copy _ | .deepcopy _ | .pickle _ => true
@@ -142,7 +138,7 @@ theorem mem_set_ne {α : Type} (l : List α) (i : Nat) (a y : α) (h : y ∈ l.s
 
 theorem step_readable (c : Case) (L : Layout) (n : Node) (insts : List Inst) (op : Op)
     (hg : L.hres = .gen n) (h1 : k1 L = false) (h2 : k2 L = false) (hok : LayoutOk L n)
-    (hu : isCopyOp op = true → L.uniform.isSome = true) (hr : Readable L n insts) :
+    (hu : isCopyOp op = true → (L.copyMode != .unsupported) = true) (hr : Readable L n insts) :
     Readable L n (step c L insts op).2 := by
   intro hc y hy
   have hr' := hr hc
@@ -254,7 +250,7 @@ theorem step_length (c : Case) (L : Layout) (insts : List Inst) (op : Op) :
 theorem specOps_run_gen (c : Case) (L : Layout) (n : Node) (hg : L.hres = .gen n)
     (h1 : k1 L = false) (h2 : k2 L = false) (hok : LayoutOk L n) :
     ∀ (ops : List Op) (insts : List Inst) (hashed : List Nat), Readable L n insts →
-      wfOps c L.nFields L.uniform.isSome insts.length hashed ops = true →
+      wfOps c L.nFields (L.copyMode != .unsupported) insts.length hashed ops = true →
       ((ops.zip (runOps c L insts ops)).any stale) = false →
       specOps c L ops (runOps c L insts ops) = true := by
   intro ops
@@ -321,7 +317,7 @@ theorem hashOp_spec_nongen (c : Case) (L : Layout) (insts : List Inst) (i : Nat)
 
 theorem specOps_run_nongen (c : Case) (L : Layout) (hng : ∀ n, L.hres ≠ .gen n) :
     ∀ (ops : List Op) (insts : List Inst) (hashed : List Nat),
-      wfOps c L.nFields L.uniform.isSome insts.length hashed ops = true →
+      wfOps c L.nFields (L.copyMode != .unsupported) insts.length hashed ops = true →
       specOps c L ops (runOps c L insts ops) = true := by
   intro ops
   induction ops with
@@ -546,36 +542,23 @@ theorem resolveHash_mem : ∀ (lf : List Node) (n : Node), resolveHash lf = .gen
           exact ⟨List.mem_cons_of_mem _ (ih n h).1, (ih n h).2⟩
 
 /-- the layout of a chain has the properties the cache argument uses -/
-theorem layoutOf_ok (outF : Facts → Outcome) (c : Case) (n : Node)
-    (hg : (layoutOf (nodesWith outF c)).hres = .gen n) : LayoutOk (layoutOf (nodesWith outF c)) n := by
-  have hmem := resolveHash_mem _ n hg
-  have hn : n ∈ nodesWith outF c := by simpa using hmem.1
-  have hattrs : n.isAttrs = true := by
-    by_cases h : n.isAttrs = true
-    · exact h
-    · have := (nodesFrom_plain_untouched outF c.excBase c.chain 0 false [] n hn (by simpa using h)).1
-      rw [hmem.2] at this
-      cases this
-  refine ⟨?_, ?_, rfl⟩
-  · intro hu hc
-    simp only [layoutOf] at hu ⊢
-    split at hu
-    · rename_i hall
-      simp only [List.any_eq_true, Bool.and_eq_true]
-      refine ⟨n, by simp [hn, hattrs], ?_, hc⟩
-      exact List.all_eq_true.1 hall n (by simp [hn, hattrs])
-    · split at hu <;> simp at hu
-  · intro hu
-    simp only [layoutOf] at hu ⊢
-    split at hu
+theorem layoutOf_ok (outF : Facts → Outcome) (c : Case) (n : Node) :
+    LayoutOk (layoutOf (nodesWith outF c)) n := by
+  refine ⟨?_, rfl⟩
+  intro hu
+  simp only [layoutOf] at hu ⊢
+  split at hu
+  · simp at hu
+  · split at hu
     · simp at hu
-    · split at hu
-      · rename_i hall
-        simp only [List.any_eq_false, Bool.and_eq_true, not_and]
-        intro m hm hs
-        have := List.all_eq_true.1 hall m hm
-        simp [hs] at this
-      · simp at hu
+    · rename_i hns
+      simp only [Bool.or_eq_true, not_or, Bool.not_eq_true] at hns
+      have h2 := hns.2
+      rw [List.any_eq_false] at h2 ⊢
+      intro m hm
+      have := h2 m hm
+      simp only [Bool.not_eq_true] at this
+      simp [this]
 
 theorem kindOf_err (n : Node) : isErrKind (kindOf n) = n.err.isSome := by
   unfold kindOf isErrKind
@@ -693,7 +676,7 @@ theorem specOps_nohash (c : Case) (L : Layout) : ∀ (ops : List Op) (rs : List 
 theorem runOps_never_raises (c : Case) (L : Layout) (n : Node) (hg : L.hres = .gen n)
     (h1 : k1 L = false) (h2 : k2 L = false) (hok : LayoutOk L n) :
     ∀ (ops : List Op) (insts : List Inst) (hashed : List Nat), Readable L n insts →
-      wfOps c L.nFields L.uniform.isSome insts.length hashed ops = true →
+      wfOps c L.nFields (L.copyMode != .unsupported) insts.length hashed ops = true →
       ∀ p ∈ ops.zip (runOps c L insts ops), isHashOp p.1 = true → p.2.out = .ok := by
   intro ops
   induction ops with
@@ -702,7 +685,7 @@ theorem runOps_never_raises (c : Case) (L : Layout) (n : Node) (hg : L.hres = .g
     intro insts hashed hr hwf p hp hh
     simp only [runOps, List.zip_cons_cons, List.mem_cons] at hp
     have hlen := step_length c L insts op
-    have hcopy : isCopyOp op = true → L.uniform.isSome = true := by
+    have hcopy : isCopyOp op = true → (L.copyMode != .unsupported) = true := by
       intro hc
       cases op <;> simp_all [isCopyOp, wfOps]
     have hr' := step_readable c L n insts op hg h1 h2 hok hcopy hr
@@ -753,31 +736,32 @@ theorem newInst_not_full (L : Layout) (vs : List Nat) (h : List Nat) : readCell 
   cases L.initCache <;> cases L.initDirect <;> cases L.hasSlot <;> simp
 
 theorem copyInst_fresh (c : Case) (L : Layout) (n : Node) (deep : Bool) (x : Inst)
-    (hx : ∀ h, readCell L x = .full h → h = fresh c n x.vals) (hnm : L.uniform ≠ some true → L.hasSlot = false) :
+    (hx : ∀ h, readCell L x = .full h → h = fresh c n x.vals) (hnm : L.copyMode ≠ .state → L.hasSlot = false) :
     ∀ h, readCell L (copyInst L deep x) = .full h → h = fresh c n (copyInst L deep x).vals := by
   intro h hh
   unfold copyInst at hh ⊢
-  cases hu : L.uniform with
-  | none =>
+  cases hu : L.copyMode with
+  | state =>
+    simp only [hu] at hh
+    cases h2 : L.stateReset
+    · simp only [h2, Bool.false_eq_true, if_false, readCell] at hh
+      cases h1 : L.hasSlot <;> simp [h1] at hh
+    · simp [h2, readCell_writeCell] at hh
+  | dict =>
     have hs := hnm (by simp [hu])
     simp only [hu, readCell, hs, Bool.false_eq_true, if_false] at hh hx ⊢
     cases deep
     · exact hx h (by simpa using hh)
     · cases hd : x.dict <;> simp_all
-  | some b =>
-    cases b with
-    | true =>
-      simp only [hu, readCell] at hh
-      cases h1 : L.hasSlot <;> cases h2 : L.stateReset <;> simp [h1, h2] at hh
-    | false =>
-      have hs := hnm (by simp [hu])
-      simp only [hu, readCell, hs, Bool.false_eq_true, if_false] at hh hx ⊢
-      cases deep
-      · exact hx h (by simpa using hh)
-      · cases hd : x.dict <;> simp_all
+  | unsupported =>
+    have hs := hnm (by simp [hu])
+    simp only [hu, readCell, hs, Bool.false_eq_true, if_false] at hh hx ⊢
+    cases deep
+    · exact hx h (by simpa using hh)
+    · cases hd : x.dict <;> simp_all
 
 theorem step_fresh (c : Case) (L : Layout) (n : Node) (insts : List Inst) (op : Op)
-    (hg : L.hres = .gen n) (hnm : isCopyOp op = true → L.uniform ≠ some true → L.hasSlot = false)
+    (hg : L.hres = .gen n) (hnm : isCopyOp op = true → L.copyMode ≠ .state → L.hasSlot = false)
     (hns : isSetOp op = false) (hf : Fresh c L n insts) : Fresh c L n (step c L insts op).2 := by
   intro y hy h hh
   cases op with
@@ -847,7 +831,7 @@ theorem step_fresh (c : Case) (L : Layout) (n : Node) (insts : List Inst) (op : 
     evolve) -/
 theorem runOps_uncached (c : Case) (L : Layout) (n : Node) (hg : L.hres = .gen n) :
     ∀ (ops : List Op) (insts : List Inst), Fresh c L n insts → ops.any isSetOp = false →
-      (∀ op ∈ ops, isCopyOp op = true → L.uniform ≠ some true → L.hasSlot = false) →
+      (∀ op ∈ ops, isCopyOp op = true → L.copyMode ≠ .state → L.hasSlot = false) →
       ∀ p ∈ ops.zip (runOps c L insts ops), stale p = false := by
   intro ops
   induction ops with
@@ -899,6 +883,23 @@ theorem known_nil (c : Case) (hk : known c = [])
   · by_cases h : k5 c (layoutOf (nodesWith codeOutcome c)) (model c).results = true
     · simp [h] at h5
     · simpa using h
+
+/-- allowing copies where they were not used keeps a history well-formed -/
+theorem wfOps_mono (c : Case) (nF : Nat) (u v : Bool) (huv : u = true → v = true) :
+    ∀ (ops : List Op) (n : Nat) (hashed : List Nat), wfOps c nF u n hashed ops = true →
+      wfOps c nF v n hashed ops = true := by
+  intro ops
+  induction ops with
+  | nil => intro n hashed _; simp [wfOps]
+  | cons o rest ih =>
+    intro n hashed hw
+    cases o <;> simp only [wfOps, Bool.and_eq_true] at hw ⊢
+    · exact ⟨hw.1, ih _ _ hw.2⟩
+    · exact ⟨⟨hw.1.1, huv hw.1.2⟩, ih _ _ hw.2⟩
+    · exact ⟨⟨hw.1.1, huv hw.1.2⟩, ih _ _ hw.2⟩
+    · exact ⟨⟨hw.1.1, huv hw.1.2⟩, ih _ _ hw.2⟩
+    · exact ⟨hw.1, ih _ _ hw.2⟩
+    · exact ⟨hw.1, ih _ _ hw.2⟩
 
 theorem wfOps_copy_uniform (c : Case) (nF : Nat) (u : Bool) :
     ∀ (ops : List Op) (n : Nat) (hashed : List Nat), wfOps c nF u n hashed ops = true →
@@ -967,29 +968,29 @@ theorem newInst_unreadable (L : Layout) (vs : List Nat) (hk : k1 L = true ∨ k2
     | unhashable => simp [hh] at hk
 
 theorem copyInst_unreadable (L : Layout) (deep : Bool) (x : Inst)
-    (hu : L.uniform = some true → L.stateReset = false) (hx : readCell L x = .absent) :
+    (hu : L.copyMode = .state → L.stateReset = false) (hx : readCell L x = .absent) :
     readCell L (copyInst L deep x) = .absent := by
   unfold copyInst
-  cases hun : L.uniform with
-  | none =>
+  cases hun : L.copyMode with
+  | state =>
+    simp only [hu hun, Bool.false_eq_true, if_false, readCell]
+    cases L.hasSlot <;> simp
+  | dict =>
     unfold readCell at hx ⊢
     cases hs : L.hasSlot
     · simp only [hs, Bool.false_eq_true, if_false] at hx ⊢
       cases deep <;> simp [hx]
     · simp
-  | some b =>
-    cases b with
-    | true => simp [readCell, hu hun]
-    | false =>
-      unfold readCell at hx ⊢
-      cases hs : L.hasSlot
-      · simp only [hs, Bool.false_eq_true, if_false] at hx ⊢
-        cases deep <;> simp [hx]
-      · simp
+  | unsupported =>
+    unfold readCell at hx ⊢
+    cases hs : L.hasSlot
+    · simp only [hs, Bool.false_eq_true, if_false] at hx ⊢
+      cases deep <;> simp [hx]
+    · simp
 
 theorem step_unreadable (c : Case) (L : Layout) (n : Node) (insts : List Inst) (op : Op)
     (hg : L.hres = .gen n) (hc : n.facts.cacheOn = true) (hk : k1 L = true ∨ k2 L = true)
-    (hu : L.uniform = some true → L.stateReset = false) (hr : Unreadable L insts) :
+    (hu : isCopyOp op = true → L.copyMode = .state → L.stateReset = false) (hr : Unreadable L insts) :
     Unreadable L (step c L insts op).2 := by
   intro y hy
   cases op with
@@ -1012,7 +1013,7 @@ theorem step_unreadable (c : Case) (L : Layout) (n : Node) (insts : List Inst) (
       simp only [hx, List.mem_append, List.mem_singleton] at hy
       rcases hy with hy | rfl
       · exact hr y hy
-      · exact copyInst_unreadable L false x hu (hr x (List.mem_of_getElem? hx))
+      · exact copyInst_unreadable L false x (hu rfl) (hr x (List.mem_of_getElem? hx))
   | deepcopy i =>
     simp only [step] at hy
     cases hx : insts[i]? with
@@ -1021,7 +1022,7 @@ theorem step_unreadable (c : Case) (L : Layout) (n : Node) (insts : List Inst) (
       simp only [hx, List.mem_append, List.mem_singleton] at hy
       rcases hy with hy | rfl
       · exact hr y hy
-      · exact copyInst_unreadable L true x hu (hr x (List.mem_of_getElem? hx))
+      · exact copyInst_unreadable L true x (hu rfl) (hr x (List.mem_of_getElem? hx))
   | pickle i =>
     simp only [step] at hy
     cases hx : insts[i]? with
@@ -1030,7 +1031,7 @@ theorem step_unreadable (c : Case) (L : Layout) (n : Node) (insts : List Inst) (
       simp only [hx, List.mem_append, List.mem_singleton] at hy
       rcases hy with hy | rfl
       · exact hr y hy
-      · exact copyInst_unreadable L true x hu (hr x (List.mem_of_getElem? hx))
+      · exact copyInst_unreadable L true x (hu rfl) (hr x (List.mem_of_getElem? hx))
   | evolve i ch =>
     simp only [step] at hy
     cases hx : insts[i]? with
@@ -1057,14 +1058,15 @@ theorem step_unreadable (c : Case) (L : Layout) (n : Node) (insts : List Inst) (
 /-- in the K1 / K2 shapes no hash call of any history succeeds -/
 theorem runOps_known_shapes_raise (c : Case) (L : Layout) (n : Node) (hg : L.hres = .gen n)
     (hc : n.facts.cacheOn = true) (hk : k1 L = true ∨ k2 L = true)
-    (hu : L.uniform = some true → L.stateReset = false) :
+    :
     ∀ (ops : List Op) (insts : List Inst), Unreadable L insts →
+      (∀ op ∈ ops, isCopyOp op = true → L.copyMode = .state → L.stateReset = false) →
       ∀ p ∈ ops.zip (runOps c L insts ops), isHashOp p.1 = true → p.2.out ≠ .ok := by
   intro ops
   induction ops with
-  | nil => intro insts _ p hp; simp [runOps] at hp
+  | nil => intro insts _ _ p hp; simp [runOps] at hp
   | cons op rest ih =>
-    intro insts hr p hp hh
+    intro insts hr hu p hp hh
     simp only [runOps, List.zip_cons_cons, List.mem_cons] at hp
     rcases hp with rfl | hp
     · cases op with
@@ -1080,7 +1082,8 @@ theorem runOps_known_shapes_raise (c : Case) (L : Layout) (n : Node) (hg : L.hre
       | pickle i => simp [isHashOp] at hh
       | evolve i ch => simp [isHashOp] at hh
       | set i f v => simp [isHashOp] at hh
-    · exact ih _ (step_unreadable c L n insts op hg hc hk hu hr) p hp hh
+    · exact ih _ (step_unreadable c L n insts op hg hc hk (hu op List.mem_cons_self) hr)
+        (fun o ho => hu o (List.mem_cons_of_mem _ ho)) p hp hh
 
 theorem specOps_false_of_raise (c : Case) (L : Layout) (n : Node) (hg : L.hres = .gen n) :
     ∀ (ops : List Op) (rs : List Res),
@@ -1109,34 +1112,5 @@ theorem specOps_false_of_raise (c : Case) (L : Layout) (n : Node) (hg : L.hres =
         | evolve i ch => simp [isHashOp] at hh
         | set i f v => simp [isHashOp] at hh
       · right; exact ih rs ⟨p, hp, hh, ho⟩
-
-/-- in `layoutOf`, K2 (frozen *dict* leaf) excludes a uniformly slotted chain -/
-theorem k2_not_uniform_slotted (ns : List Node) (h : k2 (layoutOf ns) = true) :
-    (layoutOf ns).uniform ≠ some true := by
-  unfold k2 at h
-  cases hh : (layoutOf ns).hres with
-  | gen n =>
-    simp only [hh, Bool.and_eq_true] at h
-    have hd := h.1.2
-    simp only [layoutOf] at hd ⊢
-    cases hm : lastAttrs ns.reverse with
-    | none => simp [hm] at hd
-    | some m =>
-      simp only [hm, Option.map_some, Option.getD_some, Bool.and_eq_true, Bool.not_eq_true'] at hd
-      have hmem : m ∈ ns := by
-        have := List.mem_of_find?_eq_some hm
-        simpa using this
-      have hat : m.isAttrs = true := by
-        have := List.find?_some hm
-        simpa using this
-      have : (ns.filter (·.isAttrs)).all (·.facts.slotsEff) = false := by
-        rw [Bool.eq_false_iff]
-        intro hall
-        have := List.all_eq_true.1 hall m (by simp [hmem, hat])
-        simp [hd.2] at this
-      simp [this]
-  | ident => simp [hh] at h
-  | const => simp [hh] at h
-  | unhashable => simp [hh] at h
 
 end Attrs.C04
